@@ -108,16 +108,30 @@ pub fn signature_matches(sig: &str, sc: &Scenario, out: &RunOutput, v: &Violatio
             // or the run ends before the bytes are cut again: at the violation instant an ACK
             // for a delivered data packet S reaches its sender whose end-of-poll snapshot shows
             // last_sent_seq_nr < S (the probe was taken back: S counts as never sent)
-            let taken_back = out.hist.evs.iter().filter(|(t, _)| *t == v.t).any(|(_, ev)| match ev {
-                Ev::Deliver(d) if !d.corrupted => d.pkt.as_ref().is_some_and(|a| {
-                    delivered.keys().any(|(src, _, s)| *src == d.dst && *s == a.ack)
-                        && out.hist.evs.iter().filter(|(t, _)| *t == v.t).any(|(_, e2)| match e2 {
-                            Ev::Probe(librqbit_utp::verif::ProbeEvent::ConnPoll(sn)) => sn.key.local == d.dst && crate::util::seq_lt(sn.last_sent_seq_nr, a.ack),
-                            _ => false,
-                        })
-                }),
-                _ => false,
-            });
+            // (the snapshot at the violation instant, or the last one before the ACK arrived)
+            let mut last_snap: std::collections::HashMap<std::net::SocketAddr, u16> = Default::default();
+            let mut taken_back = false;
+            for (t, ev) in &out.hist.evs {
+                if *t > v.t {
+                    break;
+                }
+                match ev {
+                    Ev::Probe(librqbit_utp::verif::ProbeEvent::ConnPoll(sn)) => {
+                        if *t == v.t && taken_back_candidate(&delivered, &out.hist, v.t, sn.key.local, sn.last_sent_seq_nr) {
+                            taken_back = true;
+                        }
+                        last_snap.insert(sn.key.local, sn.last_sent_seq_nr);
+                    }
+                    Ev::Deliver(d) if !d.corrupted && *t == v.t => {
+                        if let (Some(a), Some(ls)) = (&d.pkt, last_snap.get(&d.dst)) {
+                            if acked_seqs(a).iter().any(|q| delivered.keys().any(|(src, _, s)| *src == d.dst && s == q) && crate::util::seq_lt(*ls, *q)) {
+                                taken_back = true;
+                            }
+                        }
+                    }
+                    _ => {}
+                }
+            }
             recut || taken_back
         }
         // F7 (same root cause as F1): a popped MTU probe is re-cut into MORE segments after the
@@ -265,4 +279,26 @@ fn delivered_probe_resegmented(sc: &Scenario, out: &RunOutput, v: &Violation, ex
             m >= len + slack && crate::util::prf_mismatch(key, m - len - slack, &p.payload).is_none()
         })
     })
+}
+
+/// At instant `t` an ACK for a delivered data packet S reaches `local`, whose snapshot shows
+/// last_sent_seq_nr < S.
+fn taken_back_candidate(delivered: &std::collections::HashMap<(std::net::SocketAddr, u16, u16), usize>, h: &crate::hist::History, t: u64, local: std::net::SocketAddr, last_sent: u16) -> bool {
+    h.evs.iter().filter(|(te, _)| *te == t).any(|(_, ev)| match ev {
+        crate::hist::Ev::Deliver(d) if !d.corrupted && d.dst == local => d.pkt.as_ref().is_some_and(|a| acked_seqs(a).iter().any(|q| delivered.keys().any(|(src, _, s)| *src == local && s == q) && crate::util::seq_lt(last_sent, *q))),
+        _ => false,
+    })
+}
+
+/// The acknowledgement number of a packet and the sequence numbers its selective ACK names.
+fn acked_seqs(a: &crate::codec::Pkt) -> Vec<u16> {
+    let mut v = vec![a.ack];
+    if let Some(bits) = a.sack_bits() {
+        for (i, b) in bits.iter().enumerate() {
+            if *b {
+                v.push(a.ack.wrapping_add(2).wrapping_add(i as u16));
+            }
+        }
+    }
+    v
 }
